@@ -33,9 +33,12 @@ func (o c16Op) String() string {
 }
 
 type c16Case struct {
-	Contract bool    `json:"contract"`
-	JWT      bool    `json:"jwt,omitempty"`
-	Seq      []c16Op `json:"seq"`
+	// TinyUserCodes: user codes are drawn from a space of `TinyUserCodes` values (one symbol, that many lengths is not
+	// possible, so: alphabet of that many symbols, length 1) while several flows are pending
+	TinyUserCodes int     `json:"tiny_user_code_space,omitempty"`
+	Contract      bool    `json:"contract"`
+	JWT           bool    `json:"jwt,omitempty"`
+	Seq           []c16Op `json:"seq"`
 	// job mode
 	Depth    int `json:"depth,omitempty"`
 	MaxFlows int `json:"max_flows,omitempty"`
@@ -276,12 +279,43 @@ func c16Alphabet(nflows, maxFlows int) []c16Op {
 	return ops
 }
 
+// c16TinyUserCodes: with a user-code space of n values, n+1 device authorizations are started without any decision.
+// User codes of pending flows must be distinct (the store has to report a collision so that the endpoint draws again or
+// fails); a pending flow's user code must keep leading to that flow.
+func c16TinyUserCodes(c c16Case, res *WRes) {
+	w := NewWorld(Profile{ContractDevice: c.Contract})
+	w.Cfg.UserCodeLength = 1
+	w.Cfg.UserCodeSymbols = []rune("ABCDEFGH")[:c.TinyUserCodes]
+	seen := map[string]string{} // user code -> device code of the pending flow
+	for i := 0; i <= c.TinyUserCodes; i++ {
+		o := w.DeviceAuth(url.Values{"client_id": {"A"}, "scope": {"a"}}, w.AuthFor("A"))
+		res.Trans++
+		uc, dc := o.Str("user_code"), o.Str("device_code")
+		res.class(fmt.Sprintf("tiny-user-codes:auth#%d:%s", i+1, map[bool]string{true: "issued", false: o.Class()}[uc != ""]))
+		if uc == "" {
+			continue // refused once the space is exhausted: fine
+		}
+		if prev, dup := seen[uc]; dup {
+			res.violate(Violation{Property: "C16", Fingerprint: "C16/user-code-handed-out-twice-while-pending", What: fmt.Sprintf("device authorization #%d received user code %q, which still belongs to a pending flow (device code %s…): the earlier flow's user code now leads to the later flow", i+1, uc, prev[:12]), Engine: "c16", Case: c, Expected: "a distinct user code, or a refusal", Observed: o.JSON})
+			return
+		}
+		seen[uc] = dc
+	}
+	res.note("tiny-user-codes-checked")
+}
+
 func c16Job(arg json.RawMessage) (any, error) {
 	var c c16Case
 	if err := json.Unmarshal(arg, &c); err != nil {
 		return nil, err
 	}
 	res := &WRes{}
+	if c.TinyUserCodes > 0 {
+		c16TinyUserCodes(c, res)
+		res.Evals++
+		res.distinct(fmt.Sprintf("tiny|%d|%v", c.TinyUserCodes, c.Contract))
+		return res, nil
+	}
 	// depth-first over all sequences with the given prefix, exactly Depth further ops; every
 	// sequence is executed from scratch and every step is judged (prefixes are re-judged, harmless)
 	var rec func(seq []c16Op, nflows int, left int)
@@ -332,6 +366,10 @@ func init() {
 			return nil, err
 		}
 		res := &WRes{}
+		if c.TinyUserCodes > 0 {
+			c16TinyUserCodes(c, res)
+			return res.Viol, nil
+		}
 		c16Run(c, res, true)
 		return res.Viol, nil
 	}
@@ -341,6 +379,11 @@ func init() {
 			d1, d2 = 8, 6
 		}
 		var jobs []any
+		for _, contract := range []bool{false, true} {
+			for _, n := range []int{1, 2, 3} {
+				jobs = append(jobs, c16Case{Contract: contract, TinyUserCodes: n})
+			}
+		}
 		for _, contract := range []bool{false, true} {
 			for _, jwt := range []bool{false, true} {
 				if jwt && r.Quick() {
